@@ -137,6 +137,6 @@ Put(f, key, val) == [x \in (DOMAIN f) \cup {key} |-> IF x = key THEN val ELSE f[
 Drop(f, key) == [x \in (DOMAIN f) \ {key} |-> f[x]]
 Has(f, key) == key \in DOMAIN f
 
-SeqOf(n, v) == [i \in 1..n |-> v]
+Fill(n, v) == [i \in 1..n |-> v]
 
 =============================================================================
